@@ -5,7 +5,8 @@ from props._geo import *  # noqa
 
 LEAN_MODULES = ['A5.Props.C13']
 LEVEL = 'other'
-EXPLANATION = ('PROVED (Lean, exact arithmetic): the affine stage (face <-> barycentric coordinates on any non-degenerate triangle) and the gnomonic stage (tan/atan) are mutual inverses; both directions of the model select the face triangle and the reflection flag with the same functions. ' + TIE +
+EXPLANATION = ("NEW: the polar stage is a theorem over the reals: to_face(to_polar(x,y)) = (x,y) for every face point (atan2 = Complex.arg), and to_polar(to_face(rho,gamma)) = (rho,gamma) for rho > 0, gamma in (-pi,pi] (`polar_roundtrip`, `polar_roundtrip'`). "
+               'PROVED (Lean, exact arithmetic): the affine stage (face <-> barycentric coordinates on any non-degenerate triangle) and the gnomonic stage (tan/atan) are mutual inverses; both directions of the model select the face triangle and the reflection flag with the same functions. ' + TIE +
                'ASSUMED (numeric, swept every run): the closed-form inverse of the slice-and-dice stage inverts its forward map and accumulated rounding stays below 1e-11 — forward/inverse on the nearest face and on the edge-adjacent face through the unfolded triangle, inverse/forward on the face pentagon and its mirror triangles. '
                'This property is in itself a numeric hypothesis of the development; what the family of technique contributes is the bit-exact executable model and the exact stage lemmas.')
 RULE = 'unit vectors: frame-point/pole neighbourhoods at log scales 1e-12..1e-1 rad, seams, face edges/vertices/centres, random; nearest and edge-adjacent faces; face-plane points inside the pentagon and the five mirror triangles'
